@@ -251,9 +251,9 @@ def execute(ctx, h):
         # An error instead of a table is allowed by the property. What is not allowed is the fault-tolerant
         # path failing where the plain pure-python path succeeds on the same table.
         probes["raised." + out[1]] = 1
-        if cfg["mode"] is not False or cfg["level"]:
+        if cfg["mode"] is not False:
             font2, _ = build(shape, size, r)
-            base = {"mode": False, "plan": [], "tail": "ok", "have_hb": True, "level": 0, "twice": False, "lazy": None}
+            base = {"mode": False, "plan": [], "tail": "ok", "have_hb": True, "level": cfg["level"], "twice": False, "lazy": None}
             out_b, _ = c06.compile_font(font2, base, {}, {})
             if not isinstance(out_b, tuple):
                 c06._fail(res, "fallback-fails-where-pure-python-succeeds:" + out[1], "compile raised %s (%s) under this configuration although the pure-python packer serialises the same table" % (out[1], out[2]) + where, exc=out[1])
